@@ -17,6 +17,7 @@ pub mod c16;
 pub mod c17;
 pub mod c18;
 pub mod c19;
+pub mod c19_sweep;
 pub mod selftest;
 
 use crate::common::{Ctx, Out};
